@@ -23,7 +23,7 @@ from puresnmp.adt import (
 )
 from puresnmp.credentials import V3, Credentials
 from puresnmp.exc import NotInTimeWindow, SnmpError
-from puresnmp.pdu import GetRequest, PDUContent
+from puresnmp.pdu import GetRequest, PDUContent, Report
 from puresnmp.plugins.security import SecurityModel
 from puresnmp.transport import MESSAGE_MAX_SIZE
 from puresnmp.util import get_request_id, localise_key, validate_response_id
@@ -606,6 +606,10 @@ def validate_usm_message(message: PlainMessage) -> None:
 
     :raises SnmpError: If an error was found
     """
+    if not isinstance(message.scoped_pdu.data, Report):
+        # The usmStats counters are regular objects. Only a Report-PDU
+        # carrying one of them signals an error (RFC 3414, section 3.2).
+        return
     pdu = message.scoped_pdu.data.value
     errors = {
         ObjectIdentifier(
